@@ -259,6 +259,21 @@ pub(crate) enum SpanInfo {
     Vec(Span, Vec<SpanInfo>),
 }
 
+impl Drop for SpanInfo {
+    /// The span information of a list is nested once per element (in the
+    /// `cdr` slot), like the cells of the list itself. Unlink that chain
+    /// iteratively, so that dropping does not recurse once per element.
+    fn drop(&mut self) {
+        let mut next = match self {
+            SpanInfo::Cons(_, info) => std::mem::replace(&mut info[1], SpanInfo::Prim(Span::empty())),
+            _ => return,
+        };
+        while let SpanInfo::Cons(_, info) = &mut next {
+            next = std::mem::replace(&mut info[1], SpanInfo::Prim(Span::empty()));
+        }
+    }
+}
+
 impl SpanInfo {
     fn span(&self) -> Span {
         match self {
